@@ -44,6 +44,9 @@ class CteExtractor(BaseExtractor):
                 holder |= self.delegate_to(
                     UpdateExtractor, segment, AnalyzerContext(cte=holder.cte)
                 )
+            elif segment.type == "delete_statement":
+                # WITH ... DELETE moves no data, same as DELETE alone
+                return self._init_holder(context)
             elif segment.type == "common_table_expression":
                 alias = None
                 sub_segments = list_child_segments(segment)
